@@ -227,10 +227,18 @@ class MarginalRates(Contract):
     top_level = True
     descr = "the marginal rate reported for a base is the rate of the bracket reported for it"
 
+    cases = (None, "factor-and-rounding")
+
     def setup(self, I, ctx, case):
         w = ScaleWorld(I, ctx, MR)
         ctx.ghost["sw"] = w
-        return {"self": w.scale, "tax_base": w.base, "__w": w}
+        a = {"self": w.scale, "tax_base": w.base, "__w": w}
+        if case == "factor-and-rounding" and self.name.endswith("marginal_rates"):
+            f = ctx.fresh_real("factor")
+            ctx.assume(f > 0)
+            a["factor"] = Sym(f)
+            a["round_base_decimals"] = Sym(ctx.fresh_int("decimals"))
+        return a
 
     @staticmethod
     def local_contracts():
@@ -254,7 +262,12 @@ class MarginalRates(Contract):
         r = out[1]
         J = ctx.ghost["BIDX"]
         i = ctx.fresh_int("i")
-        return [("bracket-looked-up-for-the-same-bases", bi[0]["args"]["tax_base"] is a["tax_base"]),
+        fwd = []
+        if "factor" in a:
+            got = bi[0]["args"]
+            fwd = [("bracket-looked-up-with-the-same-threshold-factor-and-rounding",
+                    got.get("factor") is a["factor"] and (got.get("round_decimals") is a["round_base_decimals"]))]
+        return fwd + [("bracket-looked-up-for-the-same-bases", bi[0]["args"]["tax_base"] is a["tax_base"]),
                 ("one-result-per-base", B._z(r.n) == w.L),
                 (self.clause, z3.Implies(z3.And(i >= 0, i < w.L, J(i) >= 0), B.zreal(r.elem(i)) == self.field(w)(J(i))))]
 
